@@ -11,6 +11,11 @@
 #include "gen/bytes.hpp"
 #include "ref/parquet_reader.hpp"
 #include <zlib.h>
+#include <pthread.h>
+#include <sched.h>
+#include <sys/wait.h>
+#include <fstream>
+#include <sstream>
 
 using namespace pbt;
 
@@ -254,7 +259,65 @@ static Verdict runD(const D &d) {
   return vd;
 }
 
+// ------------------------------------------------------------------ first_use
+// "for every input" includes the first inputs of a process: the lookup tables are built lazily on first use, and in a
+// reader-only service the first uses come from several threads at once.  Each case re-executes this binary; in the child
+// nothing of carquet has run when T threads leave a barrier and compute checksums of their own buffers (oracle: zlib).
+struct U { int threads = 2; uint32_t seed = 1; std::vector<int> skew; int len_class = 0; };
+static CaseText serU(const U &u) { CaseText t; t.put_i("threads", u.threads); t.put_u("seed", u.seed); t.put_ints("skew", u.skew); t.put_i("len_class", u.len_class); return t; }
+static U deU(const CaseText &t) { U u; u.threads = (int)t.get_i("threads"); u.seed = (uint32_t)t.get_u("seed"); u.skew = t.get_ints<int>("skew"); u.len_class = (int)t.get_i("len_class"); return u; }
+static rc::Gen<U> genU() {
+  return rc::gen::map(rc::gen::tuple(irange(2, 8), irange(1, 1 << 30), rc::gen::container<std::vector<int>>(8, irange(0, 3)), irange(0, 2)),
+                      [](const std::tuple<int, int, std::vector<int>, int> &t) { U u; u.threads = std::get<0>(t); u.seed = (uint32_t)std::get<1>(t); u.skew = std::get<2>(t); u.len_class = std::get<3>(t); return u; });
+}
+static std::string g_self;
+static Verdict runU(const U &u) {
+  Verdict vd;
+  std::string path = rd::tmpPath("crcfu") + ".case";
+  pbt::write_file(path, serU(u).dump());
+  pid_t pid = fork();
+  if (pid == 0) { execl(g_self.c_str(), g_self.c_str(), "--first-use-child", path.c_str(), (char *)nullptr); _exit(111); }
+  int st = 0; waitpid(pid, &st, 0);
+  unlink(path.c_str());
+  vd.nontrivial = true; vd.label("first_use_threads=" + std::to_string(u.threads));
+  PBT_CHECK(vd, WIFEXITED(st) && WEXITSTATUS(st) == 0, "first checksums of a fresh process computed by %d threads at once: %s (exit status %d)", u.threads,
+            WIFEXITED(st) && WEXITSTATUS(st) == 7 ? "carquet_crc32 differs from zlib's crc32 in at least one thread" : "child crashed or reported a sanitizer error", WIFEXITED(st) ? WEXITSTATUS(st) : -WTERMSIG(st));
+  return vd;
+}
+struct UArg { pthread_barrier_t *bar; int skew; Bytes buf[3]; uint32_t got[3]; };
+static void *crcThread(void *p) {
+  UArg *a = (UArg *)p;
+  pthread_barrier_wait(a->bar);
+  for (int i = 0; i < a->skew; i++) sched_yield();
+  for (int i = 0; i < 3; i++) a->got[i] = carquet_crc32(a->buf[i].data(), a->buf[i].size());
+  return nullptr;
+}
+static int firstUseChild(const char *casefile) {
+  std::ifstream f(casefile); std::stringstream ss; ss << f.rdbuf();
+  U u = deU(CaseText::parse(ss.str()));
+  int T = std::max(2, std::min(16, u.threads));
+  std::vector<UArg> args((size_t)T); std::vector<pthread_t> th((size_t)T);
+  pthread_barrier_t bar; pthread_barrier_init(&bar, nullptr, (unsigned)T);
+  uint64_t sd = 0x9E3779B97F4A7C15ull ^ ((uint64_t)u.seed << 1 | 1);
+  for (int i = 0; i < T; i++) {
+    args[(size_t)i].bar = &bar; args[(size_t)i].skew = u.skew.empty() ? 0 : u.skew[(size_t)i % u.skew.size()];
+    for (int k = 0; k < 3; k++) { size_t len = u.len_class == 0 ? 1 + gf::dxs(sd) % 64 : u.len_class == 1 ? 64 + gf::dxs(sd) % 4096 : 4096 + gf::dxs(sd) % 100000; Bytes &b = args[(size_t)i].buf[k]; b.resize(len); for (auto &x : b) x = (uint8_t)(gf::dxs(sd) >> 24); }
+  }
+  for (int i = 0; i < T; i++) pthread_create(&th[(size_t)i], nullptr, crcThread, &args[(size_t)i]);
+  for (int i = 0; i < T; i++) pthread_join(th[(size_t)i], nullptr);
+  pthread_barrier_destroy(&bar);
+  for (int i = 0; i < T; i++) for (int k = 0; k < 3; k++) {
+    uint32_t want = (uint32_t)::crc32(::crc32(0L, Z_NULL, 0), args[(size_t)i].buf[k].data(), (uInt)args[(size_t)i].buf[k].size());
+    if (args[(size_t)i].got[k] != want) { fprintf(stderr, "thread %d of %d, buffer %d (%zu bytes): carquet_crc32 = %08x, zlib = %08x\n", i, T, k, args[(size_t)i].buf[k].size(), args[(size_t)i].got[k], want); return 7; }
+  }
+  return 0;
+}
+
 int main(int argc, char **argv) {
+  g_self = "/proc/self/exe";
+  { char buf[4096]; ssize_t n = readlink("/proc/self/exe", buf, sizeof buf - 1); if (n > 0) { buf[n] = 0; g_self = buf; } }
+  if (argc == 3 && std::string(argv[1]) == "--first-use-child") return firstUseChild(argv[2]);
+  add<U>("first_use", 0.4, genU, serU, deU, runU);
   add<F>("crc_fn", 1, genF, serF, deF, runF);
   registry().back().enumerate = enumF;
   add<D>("damage", 1, genD, serD, deD, runD);
